@@ -133,7 +133,7 @@ impl Check for C18 {
     }
 
     fn rule(&self) -> String {
-        "case = a real Server (limits 1..3 or 200, generated packet-size / allocation settings so that some requests are refused) with generated active-timeout (1 s .. 1 h, or 2^32-1 ms), keepalive and rate settings, and up to five spoofable source addresses sending, in a generated interleaving (one datagram in five is read in the same server step as the next one) with waits of 0..60 s (during some of which the server application stalls, i.e. does not step at all) and a final wait of up to 12 minutes (so that all SYN-ACK resends and the pending-entry expiry are observed, however the server is configured): handshake ACKs carrying the nonce of the latest SYN-ACK the server sent to ANOTHER of the addresses (what the owner of that address can replay under a spoofed source), well-formed padded SYNs (also wrong version, extreme limits), repeats of the previous SYN, SYN-typed frames of every length below 1472 with a valid checksum, handshake ACKs with arbitrary nonces, frames of every other type, bursts of up to 400 minimum-size frames (10..15 bytes) one per step - among them data frames numbered upwards from the nonce of the address's own SYN, as a real client's first frames would be -, raw bytes. One case in four hundred begins with a crowd: 40..1040 further addresses send one well-formed request each within one server step and never answer (the server then has the default limits, so that hundreds of handshakes are pending at once), and the final wait is at least 2 or 10 minutes. No address ever completes the handshake. Oracle after every server step: no address is ever reported as connected; per address: bytes sent to it are 0 or strictly less than the bytes received from it; a datagram that is not a full-size SYN produces no reply at all, and copies of a SYN-ACK are never less than 2 s apart. Non-trivial = the server sent at least one byte to an unverified address. Distinct = distinct serialised case.".into()
+        "case = a real Server (limits 1..3 or 200, generated packet-size / allocation settings so that some requests are refused) with generated active-timeout (1 s .. 1 h, or 2^32-1 ms), keepalive and rate settings, and up to five spoofable source addresses sending, in a generated interleaving (one datagram in five is read in the same server step as the next one) with waits of 0..60 s (during some of which the server application stalls, i.e. does not step at all) and a final wait of up to 12 minutes (so that all SYN-ACK resends and the pending-entry expiry are observed, however the server is configured): handshake ACKs carrying the nonce of the latest SYN-ACK the server sent to ANOTHER of the addresses (what the owner of that address can replay under a spoofed source), well-formed padded SYNs (also wrong version, extreme limits), repeats of the previous SYN, SYN-typed frames of every length below 1472 with a valid checksum, handshake ACKs with arbitrary nonces, frames of every other type, bursts of up to 400 minimum-size frames (10..15 bytes) one per step - among them data frames numbered upwards from the nonce of the address's own SYN, as a real client's first frames would be -, raw bytes. One case in four hundred begins with a crowd: 40..1040 further addresses send one well-formed request each within one server step and never answer (the server then has the default limits, so that hundreds of handshakes are pending at once), and the final wait is at least 2 or 10 minutes. No address ever completes the handshake. One case in three with three or more SYN-ACK nonces is run a second time under another random stream: the differences between the nonces of a run must not all be the same in both runs (nonces that are a function of address, time and one secret can be computed by whoever sees one of them). Oracle after every server step: no address is ever reported as connected; per address: bytes sent to it are 0 or strictly less than the bytes received from it; a datagram that is not a full-size SYN produces no reply at all, and copies of a SYN-ACK are never less than 2 s apart. Non-trivial = the server sent at least one byte to an unverified address. Distinct = distinct serialised case.".into()
     }
 
     fn assumptions(&self) -> Vec<String> {
@@ -141,6 +141,36 @@ impl Check for C18 {
     }
 
     fn run(&self, c: &Case) -> CaseResult {
+        let mut nonces: Vec<(std::net::SocketAddr, u32)> = Vec::new();
+        let mut r = run_with_rng(c, c.seed, &mut nonces);
+        // The nonce is what verifies an address: it must not be computable from nonces handed to other addresses (or to
+        // the same address earlier). One case in three is run a second time with another random stream - everything
+        // else, times and addresses included, being equal: if ALL differences between the nonces of a run are the
+        // same in both runs, the nonces are a function of address and time plus one secret, and whoever sees one of
+        // them can compute the others. (Independent 32-bit draws agree by chance once in 2^32 per difference.)
+        if r.violation.is_none() && c.seed % 3 == 0 && nonces.len() >= 3 {
+            let mut other: Vec<(std::net::SocketAddr, u32)> = Vec::new();
+            let r2 = run_with_rng(c, c.seed ^ 0x5DEE_CE66_D1CE_4E5B, &mut other);
+            if r2.violation.is_some() {
+                return r2;
+            }
+            if other.len() == nonces.len() && other.iter().zip(nonces.iter()).all(|(a, b)| a.0 == b.0) {
+                r.classes.push("nonce_independence_checked");
+                let same = (1..nonces.len()).all(|i| nonces[i].1.wrapping_sub(nonces[0].1) == other[i].1.wrapping_sub(other[0].1));
+                if same {
+                    return CaseResult::fail(
+                        "oracle:c18:server_nonces_predictable",
+                        format!("the {} nonces the server handed out differ from one another by exactly the same amounts under two different random streams (first run {:?}, second run {:?}): they are a function of address and time plus one secret, so an address that sees its own SYN-ACK can compute the nonce sent to any other address and complete a handshake it never took part in", nonces.len(), nonces.iter().take(4).collect::<Vec<_>>(), other.iter().take(4).collect::<Vec<_>>()),
+                    );
+                }
+            }
+        }
+        r
+    }
+}
+
+fn run_with_rng(c: &Case, rng_seed: u64, nonces_out: &mut Vec<(std::net::SocketAddr, u32)>) -> CaseResult {
+    {
         let cfg = ServerCfg {
             max_total: if c.crowd > 0 { 4096 } else { c.max_total as u32 },
             max_active: if c.crowd > 0 { 4096 } else { c.max_active as u32 },
@@ -156,7 +186,7 @@ impl Check for C18 {
                 ..EpCfg::default()
             },
         };
-        let mut w = World::new(c.seed, &cfg);
+        let mut w = World::new(rng_seed, &cfg);
         // (nobody reads what the server sends to these addresses)
         w.auto_discard = c.crowd > 0;
         let mut rx: HashMap<std::net::SocketAddr, u64> = HashMap::new();
@@ -403,6 +433,14 @@ impl Check for C18 {
         }
         if w.wire.iter().any(|r| matches!(Frame::read(&r.bytes), Some(Frame::HandshakeErrorFrame(_)))) {
             classes.push("refused_syn");
+        }
+        // first appearance of every SYN-ACK nonce, in order
+        for r in w.wire.iter().filter(|r| r.from == w.server_addr) {
+            if let Some(Frame::HandshakeSynAckFrame(f)) = Frame::read(&r.bytes) {
+                if !nonces_out.iter().any(|n| n.0 == r.to && n.1 == f.nonce) {
+                    nonces_out.push((r.to, f.nonce));
+                }
+            }
         }
         classes.sort();
         classes.dedup();
